@@ -1,0 +1,64 @@
+//go:build verif
+
+/*
+ * Licensed to the Apache Software Foundation (ASF) under one or more
+ * contributor license agreements.  See the NOTICE file distributed with
+ * this work for additional information regarding copyright ownership.
+ * The ASF licenses this file to You under the Apache License, Version 2.0
+ * (the "License"); you may not use this file except in compliance with
+ * the License.  You may obtain a copy of the License at
+ *
+ *     http://www.apache.org/licenses/LICENSE-2.0
+ *
+ * Unless required by applicable law or agreed to in writing, software
+ * distributed under the License is distributed on an "AS IS" BASIS,
+ * WITHOUT WARRANTIES OR CONDITIONS OF ANY KIND, either express or implied.
+ * See the License for the specific language governing permissions and
+ * limitations under the License.
+ */
+
+package getty
+
+import (
+	"sync/atomic"
+
+	getty "github.com/apache/dubbo-getty"
+)
+
+// Read-only accessors for the verification harness (build tag "verif"); no behaviour change.
+
+// VerifPendingFutures returns the ids of the message futures currently kept by the remoting client.
+func VerifPendingFutures() []int32 {
+	var ids []int32
+	GetGettyRemotingClient().gettyRemoting.futures.Range(func(k, _ interface{}) bool {
+		ids = append(ids, k.(int32))
+		return true
+	})
+	return ids
+}
+
+// VerifMergedPending returns the number of merged-message entries kept by the remoting client.
+func VerifMergedPending() int {
+	n := 0
+	GetGettyRemotingClient().gettyRemoting.mergeMsgMap.Range(func(_, _ interface{}) bool {
+		n++
+		return true
+	})
+	return n
+}
+
+// VerifSessions returns, for every registered session, whether it is closed, plus the session counter.
+func VerifSessions() (open, closed int, counter int32) {
+	if sessionManager == nil {
+		return 0, 0, 0
+	}
+	sessionManager.allSessions.Range(func(k, _ interface{}) bool {
+		if k.(getty.Session).IsClosed() {
+			closed++
+		} else {
+			open++
+		}
+		return true
+	})
+	return open, closed, atomic.LoadInt32(&sessionManager.sessionSize)
+}
